@@ -1,15 +1,16 @@
 (* C17 - Monotone rules stay monotone: more support or more seats never hurts.
    Property theorems only.  Models: Model/HighestAverages.v (the loop of
    HighestAverages.evaluate), Prelude/GDict.v + Model/Convert.v (additive converters),
-   Model/GetNBest.v; proofs: Proofs/Mono_proofs.v, Proofs/Additive_proofs.v, Proofs/HA_proofs.v.
+   Model/GetNBest.v, Model/Condorcet.v, Model/Bucklin.v (PreferenceAddition.evaluate); proofs: Proofs/Mono_proofs.v,
+   Proofs/Additive_proofs.v, Proofs/HA_proofs.v, Proofs/CopelandMono_proofs.v, Proofs/Minimax_proofs.v, Proofs/Bucklin_proofs.v.
 
    [tot_s (final_state d votes n prev caps) c] is the number of seats party c holds for certain when
    the loop stops (previous gains + seats awarded; seats of a reported tie are not included). *)
-From Coq Require Import ZArith QArith List Bool.
+From Coq Require Import ZArith QArith List Bool Lia.
 From VL Require Import Prelude.Sx Prelude.PyDict Prelude.GDict Model.GetNBest Model.Divisor Model.HighestAverages
-     Model.Convert Model.Condorcet
+     Model.Convert Model.Condorcet Model.Bucklin
      Proofs.Dict_proofs Proofs.HA_proofs Proofs.Divisor_proofs Proofs.Mono_proofs Proofs.Additive_proofs
-     Proofs.Convert_proofs Proofs.CopelandMono_proofs Proofs.Minimax_proofs Proofs.Condorcet_proofs Proofs.Schulze_proofs.
+     Proofs.Convert_proofs Proofs.CopelandMono_proofs Proofs.Minimax_proofs Proofs.Condorcet_proofs Proofs.Schulze_proofs Proofs.Bucklin_proofs.
 Import ListNotations.
 Open Scope Z_scope.
 
@@ -189,6 +190,150 @@ Qed.
 (* [sscores v order] is the dictionary the evaluator hands to get_n_best *)
 Theorem C17_schulze_scores : forall v order n, schulze v order n = get_n_best zle_bool (sscores v order) n.
 Proof. intros v order n. reflexivity. Qed.
+(* ---- Bucklin / Oklahoma: PreferenceAddition.evaluate (Model/Bucklin.v: the rounds, the majority filter, get_n_best and
+   _decouple_equal_rankings as the code has them; proofs Proofs/Bucklin_proofs.v), one seat.
+   [pa_eval fx coef split votes 1]: coefficient of round i = coef i, split = split_equal_rankings; fx = false is the
+   splicing loop of _decouple_equal_rankings as written, fx = true the same loop with the proposed one-token repair
+   (fixes/C17-bucklin-splice-offset.diff) - the theorems hold for both, the check runs the model with the one the
+   implementation has.
+
+   General form: a sole winner w stays the sole winner when ONE ballot (its whole weight x; a profile may list a ballot
+   twice, so this covers one unit of a heavier ballot) is replaced by a ballot that at no round has given w less and at no
+   round has given anybody else more ([pa_lifts]; [cumb coef b r c] = what a unit of ballot b has added to c in the rounds
+   before r).  The other ballots are arbitrary (truncated, with shared ranks, split or not); weights are non-negative.
+   When shared ranks are split the changed ballot itself must not have any (see C17_bucklin_shared_refuted). *)
+Theorem C17_preference_addition_general : forall (fx : bool) (coef : nat -> Q) (split : bool) pre post (b b' : ranked) (x : Q) (w : C),
+  Forall (fun bw => 0 <= snd bw)%Q (pre ++ post) -> (0 <= x)%Q ->
+  (split = true -> has_shared b = false /\ has_shared b' = false) ->
+  pa_lifts coef b b' w ->
+  pa_eval fx coef split (pre ++ (b, x) :: post) 1 = PA_ok [Cand w] ->
+  pa_eval fx coef split (pre ++ (b', x) :: post) 1 = PA_ok [Cand w].
+Proof. exact pa_mono_replace. Qed.
+
+(* the winner moves upwards past any number of places, everybody else keeps their relative order: any non-negative
+   non-increasing coefficients (Bucklin 1,1,1,..; Oklahoma 1,1/2,1/3,..), ballots of items (shared ranks allowed in the
+   changed ballot when they are not split) *)
+Theorem C17_preference_addition : forall (fx : bool) (coef : nat -> Q) (split : bool) pre post (p1 p2 p3 : ranked) (x : Q) (w : C),
+  (forall i, 0 <= coef i)%Q -> (forall i, coef (S i) <= coef i)%Q ->
+  Forall (fun bw => 0 <= snd bw)%Q (pre ++ post) -> (0 <= x)%Q ->
+  ~ In w (flatten p2) ->
+  (split = true -> has_shared (p1 ++ p2 ++ IP w :: p3) = false) ->
+  pa_eval fx coef split (pre ++ (p1 ++ p2 ++ IP w :: p3, x) :: post) 1 = PA_ok [Cand w] ->
+  pa_eval fx coef split (pre ++ (p1 ++ IP w :: p2 ++ p3, x) :: post) 1 = PA_ok [Cand w].
+Proof. exact pa_move_up. Qed.
+
+(* the two presets, default construction (shared ranks split), the changed ballot a strict ranking *)
+Theorem C17_bucklin : forall (fx : bool) pre post (l1 l2 l3 : list C) (x : Q) (w : C),
+  Forall (fun bw => 0 <= snd bw)%Q (pre ++ post) -> (0 <= x)%Q -> ~ In w l2 ->
+  bucklin fx (pre ++ (plain_ballot (l1 ++ l2 ++ w :: l3), x) :: post) 1 = PA_ok [Cand w] ->
+  bucklin fx (pre ++ (plain_ballot (l1 ++ w :: l2 ++ l3), x) :: post) 1 = PA_ok [Cand w].
+Proof. intros fx pre post l1 l2 l3 x w. exact (pa_move_up_plain fx bucklin_coef pre post l1 l2 l3 x w bucklin_coef_good). Qed.
+
+Theorem C17_oklahoma : forall (fx : bool) pre post (l1 l2 l3 : list C) (x : Q) (w : C),
+  Forall (fun bw => 0 <= snd bw)%Q (pre ++ post) -> (0 <= x)%Q -> ~ In w l2 ->
+  oklahoma fx (pre ++ (plain_ballot (l1 ++ l2 ++ w :: l3), x) :: post) 1 = PA_ok [Cand w] ->
+  oklahoma fx (pre ++ (plain_ballot (l1 ++ w :: l2 ++ l3), x) :: post) 1 = PA_ok [Cand w].
+Proof. intros fx pre post l1 l2 l3 x w. exact (pa_move_up_plain fx oklahoma_coef pre post l1 l2 l3 x w oklahoma_coef_good). Qed.
+
+(* non-increasing coefficients are needed: with the coefficient list [1; 0; 2] the winner C of {(B): 1, (A,B,C): 1}
+   loses to B when it moves up to (A,C,B) *)
+Theorem C17_preference_addition_increasing_refuted :
+  exists (coef : nat -> Q) pre post (l1 l2 l3 : list C) (x : Q) (w : C),
+    (forall i, 0 <= coef i)%Q /\ ~ In w l2 /\
+    pa_eval false coef true (pre ++ (plain_ballot (l1 ++ l2 ++ w :: l3), x) :: post) 1 = PA_ok [Cand w] /\
+    pa_eval false coef true (pre ++ (plain_ballot (l1 ++ w :: l2 ++ l3), x) :: post) 1 = PA_ok [Cand 2%positive] /\ w <> 2%positive.
+Proof.
+  exists (coef_fun (CoefList [1; 0; 2]%Q)), [(plain_ballot [2%positive], 1%Q)], [], [1%positive], [2%positive], [], 1%Q, 3%positive.
+  split; [|split; [|split; [|split]]]; [|intros [H|[]]; discriminate|vm_compute; reflexivity|vm_compute; reflexivity|discriminate].
+  intros [|[|[|[|i]]]]; vm_compute; discriminate.
+Qed.
+
+(* A NEW ballot with the winner on top.  It raises the quota by half its weight: the clause holds when the ballot gives
+   the winner at least that much at once (coef 0 >= 1/2) and nobody else more than that (coefficients of the later places
+   <= 1/2, every candidate listed once).  So: any such ballot under Oklahoma, the bullet vote under Bucklin. *)
+Theorem C17_preference_addition_added : forall (fx : bool) (coef : nat -> Q) (split : bool) pre post (rest : ranked) (x : Q) (w : C),
+  (forall i, 0 <= coef i)%Q -> (1 # 2 <= coef 0%nat)%Q ->
+  (forall i, (1 <= i < S (length rest))%nat -> coef i <= 1 # 2)%Q -> NoDup (flatten rest) ->
+  (split = true -> has_shared rest = false) ->
+  Forall (fun bw => 0 <= snd bw)%Q (pre ++ post) -> (0 <= x)%Q ->
+  pa_eval fx coef split (pre ++ post) 1 = PA_ok [Cand w] ->
+  pa_eval fx coef split (pre ++ (IP w :: rest, x) :: post) 1 = PA_ok [Cand w].
+Proof. exact pa_add_top. Qed.
+
+Theorem C17_bucklin_added : forall (fx : bool) pre post (x : Q) (w : C),
+  Forall (fun bw => 0 <= snd bw)%Q (pre ++ post) -> (0 <= x)%Q ->
+  bucklin fx (pre ++ post) 1 = PA_ok [Cand w] ->
+  bucklin fx (pre ++ (plain_ballot [w], x) :: post) 1 = PA_ok [Cand w].
+Proof.
+  intros fx pre post x w Hw Hx. apply (pa_add_top fx bucklin_coef true pre post [] x w); try assumption.
+  - intros i. unfold bucklin_coef. discriminate.
+  - unfold bucklin_coef. discriminate.
+  - intros i Hi. simpl in Hi. lia.
+  - constructor.
+  - reflexivity.
+Qed.
+
+Theorem C17_oklahoma_added : forall (fx : bool) pre post (rest : list C) (x : Q) (w : C),
+  Forall (fun bw => 0 <= snd bw)%Q (pre ++ post) -> (0 <= x)%Q -> NoDup rest ->
+  oklahoma fx (pre ++ post) 1 = PA_ok [Cand w] ->
+  oklahoma fx (pre ++ (plain_ballot (w :: rest), x) :: post) 1 = PA_ok [Cand w].
+Proof.
+  intros fx pre post rest x w Hw Hx Hnd. apply (pa_add_top fx oklahoma_coef true pre post (plain_ballot rest) x w); try assumption.
+  - apply oklahoma_coef_good.
+  - unfold oklahoma_coef. discriminate.
+  - intros i Hi. apply oklahoma_coef_half. lia.
+  - rewrite flatten_plain. exact Hnd.
+  - intros _. apply has_shared_plain.
+Qed.
+
+(* under Bucklin a longer new ballot that ranks the winner first can cost it the sole win (the participation failure of
+   Bucklin): {(D,A): 2, (B,C,A): 2} elects A in the third round; with one more ballot (A,B) the quota is 5/2 and A and B
+   tie above it in the second round *)
+Theorem C17_bucklin_added_full_refuted :
+  exists votes (rest : list C) (x : Q) (w : C), NoDup (w :: rest) /\ (0 <= x)%Q /\
+    (forall fx, bucklin fx votes 1 = PA_ok [Cand w]) /\
+    (forall fx, bucklin fx (votes ++ [(plain_ballot (w :: rest), x)]) 1 = PA_ok [TieR [2%positive; w]]).
+Proof.
+  exists [(plain_ballot [4; 1]%positive, 2%Q); (plain_ballot [2; 3; 1]%positive, 2%Q)], [2%positive], 1%Q, 1%positive.
+  split; [constructor; [simpl; intros [H|[]]; discriminate|constructor; [intros []|constructor]]|].
+  split; [discriminate|]. split; intros [|]; vm_compute; reflexivity.
+Qed.
+
+(* changed ballots WITH shared ranks under split_equal_rankings: refuted for the code as written.  The splicing loop of
+   _decouple_equal_rankings advances its offset by the length of the spliced permutation instead of that length minus
+   one, so from the second shared rank of a ballot on the rank behind the shared one is overwritten:
+   ({X},{Y},Z,W) counts as (X,{Y},Y,W) but ({X},{Y},W,Z) as (X,{Y},Y,Z) - moving W up one place removes it from the
+   ballot.  {({X},{Y},Z,W): 1, (X): 1, (W): 2} elects W (3 of 4 in the fourth round); after the move nobody is elected.
+   With the repaired loop W wins both times. *)
+Theorem C17_bucklin_shared_refuted :
+  exists pre post (p1 p2 p3 : ranked) (x : Q) (w : C), ~ In w (flatten p2) /\ (0 <= x)%Q /\
+    bucklin false (pre ++ (p1 ++ p2 ++ IP w :: p3, x) :: post) 1 = PA_ok [Cand w] /\
+    bucklin false (pre ++ (p1 ++ IP w :: p2 ++ p3, x) :: post) 1 = PA_ok [] /\
+    bucklin true (pre ++ (p1 ++ p2 ++ IP w :: p3, x) :: post) 1 = PA_ok [Cand w] /\
+    bucklin true (pre ++ (p1 ++ IP w :: p2 ++ p3, x) :: post) 1 = PA_ok [Cand w].
+Proof.
+  exists [], [([IP 1%positive], 1%Q); ([IP 4%positive], 2%Q)], [IS [1%positive]; IS [2%positive]], [IP 3%positive], [], 1%Q, 4%positive.
+  split; [simpl; intros [H|[]]; discriminate|]. split; [discriminate|]. repeat split; vm_compute; reflexivity.
+Qed.
+
+(* what is not proved: the clause for changed ballots that contain shared ranks while shared ranks are split
+   (false of the code as written, above; stated here for the repaired loop, decided per explored case by the check) *)
+Definition C17_bucklin_shared_full_statement : Prop :=
+  forall pre post (p1 p2 p3 : ranked) (x : Q) (w : C),
+  Forall (fun bw => 0 <= snd bw)%Q (pre ++ post) -> (0 <= x)%Q -> ~ In w (flatten p2) ->
+  bucklin true (pre ++ (p1 ++ p2 ++ IP w :: p3, x) :: post) 1 = PA_ok [Cand w] ->
+  bucklin true (pre ++ (p1 ++ IP w :: p2 ++ p3, x) :: post) 1 = PA_ok [Cand w].
+
+(* non-vacuity: a profile with a truncated ballot and a split shared rank: {(D,A): 3, (B,C,A): 2, ({B,C},D): 1};
+   Bucklin elects A in the third round (5 against D's 4, quota 3); after A has moved up to (B,A,C) already in the second.
+   Under the Oklahoma coefficients D wins both times. *)
+Example C17_bucklin_example :
+  let others := [(plain_ballot [4; 1]%positive, 3%Q)] in
+  let shared := [([IS [2; 3]%positive; IP 4%positive], 1%Q)] in
+  bucklin false (others ++ (plain_ballot ([2%positive] ++ [3%positive] ++ 1%positive :: []), 2%Q) :: shared) 1 = PA_ok [Cand 1%positive] /\
+  bucklin false (others ++ (plain_ballot ([2%positive] ++ 1%positive :: [3%positive] ++ []), 2%Q) :: shared) 1 = PA_ok [Cand 1%positive] /\
+  oklahoma false (others ++ (plain_ballot ([2%positive] ++ [3%positive] ++ 1%positive :: []), 2%Q) :: shared) 1 = PA_ok [Cand 4%positive].
+Proof. vm_compute. repeat split; reflexivity. Qed.
 
 (* non-vacuity: 3 parties, D'Hondt, 5 -> 6 seats (the 5-seat run ends in a tie A/B for the last seat) *)
 Example C17_example :
@@ -214,3 +359,13 @@ Print Assumptions C17_schulze_witness_loses.
 Print Assumptions C17_schulze_refuted.
 Print Assumptions C17_schulze_partial.
 Print Assumptions C17_schulze_scores.
+Print Assumptions C17_preference_addition_general.
+Print Assumptions C17_preference_addition.
+Print Assumptions C17_bucklin.
+Print Assumptions C17_oklahoma.
+Print Assumptions C17_preference_addition_increasing_refuted.
+Print Assumptions C17_preference_addition_added.
+Print Assumptions C17_bucklin_added.
+Print Assumptions C17_oklahoma_added.
+Print Assumptions C17_bucklin_added_full_refuted.
+Print Assumptions C17_bucklin_shared_refuted.
